@@ -331,7 +331,7 @@ fn run_batch(sh: &mut Shard, obs: &[Obs]) -> Result<(), Violation> {
         sh.eval();
         sh.class(&format!("route:{}", o.route));
         sh.class(&format!("{}->{}", o.s.name(), o.t.name()));
-        sh.nontrivial(hash64(&(o.route, o.s.name(), o.t.name(), o.v.0)));
+        sh.nontrivial(hash64(&(o.route, o.s.name(), o.t.name(), o.v.0, o.id)));
         match marked.get(&o.id) {
             Some(p) => {
                 if !o.exp.iter().any(|e| matches!(e, Out::Stored(w) if value_matches(o.t, p, *w))) {
@@ -365,7 +365,7 @@ fn run_single(sh: &mut Shard, o: &Obs) -> Result<(), Violation> {
     sh.eval();
     sh.class(&format!("route:{}", o.route));
     sh.class(&format!("{}->{}:overflow-candidate", o.s.name(), o.t.name()));
-    sh.nontrivial(hash64(&(o.route, o.s.name(), o.t.name(), o.v.0, "single")));
+    sh.nontrivial(hash64(&(o.route, o.s.name(), o.t.name(), o.v.0, "single", o.id)));
     let out = match impl_run::run_src(&b.text, &opts) {
         Err(e) => return Err(Violation::new(format!("c06-rejected:{}", e.class()), "conversion-matrix program rejected", inputs).exp_obs("accepted", e.to_json())),
         Ok(x) => x,
@@ -503,6 +503,165 @@ fn arithmetic(id: &mut usize, out: &mut Vec<Obs>) {
     }
 }
 
+/// MOD / AND / OR / NOT: operands of every type pair (rounded to whole numbers first, worked on 16 bits only when
+/// both are INTEGER, on the 32 bits of a LONG otherwise), the result printed directly and stored into INTEGER, LONG
+/// and DOUBLE targets. An operand beyond the LONG range, or a result beyond the target's range, must raise Overflow.
+fn logical(id: &mut usize, out: &mut Vec<Obs>) {
+    let operands = |t: T| -> Vec<Q> {
+        match t {
+            T::I => [-32768i128, -1, 0, 1, 255, 32767].iter().map(|v| w(*v)).collect(),
+            T::L => [-2147483648i128, -32769, 2, 65537, 2147483647].iter().map(|v| w(*v)).collect(),
+            T::S => vec![q(0, 1), w(3), q(40000, 1), q(-32768, 3), w(16777216), w(2147483648), w(-2147483648)],
+            T::D => vec![q(0, 3), w(-3), q(100001, 1), q(2147483647, 1), q(2147483647, 3), w(4000000000)],
+        }
+    };
+    let round = |v: Q| -> Option<i128> {
+        let fl = v.0.div_euclid(4);
+        match v.0.rem_euclid(4) {
+            0 | 1 => Some(fl),
+            2 => None, // a tie: not determined
+            _ => Some(fl + 1),
+        }
+    };
+    let in_long = |x: i128| (-2147483648..=2147483647).contains(&x);
+    for s1 in T::ALL {
+        for s2 in T::ALL {
+            let both_int = s1 == T::I && s2 == T::I;
+            let rt = if both_int { T::I } else { T::L };
+            for a in operands(s1) {
+                for b in operands(s2) {
+                    let (Some(ra), Some(rb)) = (round(a), round(b)) else { continue };
+                    for (op, route) in [("AND", "logical-and"), ("OR", "logical-or"), ("MOD", "modulo")] {
+                        if op == "MOD" && rb == 0 {
+                            continue; // Division by zero (possibly competing with Overflow): C01's business
+                        }
+                        let result: Option<i128> = if !in_long(ra) || !in_long(rb) {
+                            None
+                        } else {
+                            match op {
+                                "AND" => Some(ra & rb),
+                                "OR" => Some(ra | rb),
+                                _ => {
+                                    if rb == 0 {
+                                        continue; // Division by zero: C01's business
+                                    }
+                                    Some(ra % rb)
+                                }
+                            }
+                        };
+                        // printed directly
+                        {
+                            *id += 1;
+                            let k = *id;
+                            let exp = match result {
+                                None => vec![Out::Overflow],
+                                Some(r) => vec![Out::Stored(r as f64)],
+                            };
+                            let lines = vec![format!("SV{} = {}", s1.sfx(), source_literal(s1, a)), format!("SW{} = {}", s2.sfx(), source_literal(s2, b)), format!("PRINT \"K{}\"; SV{} {} SW{}", k, s1.sfx(), op, s2.sfx())];
+                            out.push(Obs { id: k, route, s: s1, t: rt, v: a, lines, show: None, stdin: None, data: None, exp, arith: false });
+                        }
+                        // stored into a target of each kind
+                        for t in [T::I, T::L, T::D] {
+                            *id += 1;
+                            let k = *id;
+                            let exp = match result {
+                                None => vec![Out::Overflow],
+                                Some(r) => expected(w(r), t),
+                            };
+                            let lines = vec![format!("SV{} = {}", s1.sfx(), source_literal(s1, a)), format!("SW{} = {}", s2.sfx(), source_literal(s2, b)), format!("TV{} = 7", t.sfx()), format!("TV{} = SV{} {} SW{}", t.sfx(), s1.sfx(), op, s2.sfx())];
+                            out.push(Obs { id: k, route, s: s1, t, v: a, lines, show: Some(format!("PRINT \"K{}\"; TV{}", k, t.sfx())), stdin: None, data: None, exp, arith: false });
+                        }
+                    }
+                }
+            }
+        }
+    }
+    // NOT on whole-number operands: -x - 1 in the operand's type (never out of range)
+    for s1 in [T::I, T::L] {
+        for a in operands(s1) {
+            let r = -(a.0 / 4) - 1;
+            for t in [T::I, T::L] {
+                *id += 1;
+                let k = *id;
+                let lines = vec![format!("SV{} = {}", s1.sfx(), source_literal(s1, a)), format!("TV{} = 7", t.sfx()), format!("TV{} = NOT SV{}", t.sfx(), s1.sfx())];
+                out.push(Obs { id: k, route: "logical-not", s: s1, t, v: a, lines, show: Some(format!("PRINT \"K{}\"; TV{}", k, t.sfx())), stdin: None, data: None, exp: expected(w(r), t), arith: false });
+            }
+        }
+    }
+}
+
+/// Numbers written with more digits than any literal in the boundary sets: beyond the SINGLE range (4 * 10^38),
+/// beyond the DOUBLE range (2 * 10^308) and just inside them, arriving as text through INPUT and READ.
+fn huge_text(id: &mut usize, out: &mut Vec<Obs>) {
+    let digits = |lead: &str, zeros: usize| format!("{}{}", lead, "0".repeat(zeros));
+    let texts: Vec<(&'static str, String)> = vec![
+        ("beyond-single", digits("4", 38)),
+        ("beyond-single", digits("-4", 38)),
+        ("inside-single", digits("3", 38)),
+        ("inside-single", digits("-3", 38)),
+        ("beyond-single", digits("1", 45)),
+        ("beyond-double", digits("2", 308)),
+        ("beyond-double", digits("-2", 308)),
+        ("inside-double", digits("1", 308)),
+    ];
+    for (class, text) in texts {
+        let as_f64: f64 = text.parse().unwrap();
+        for t in T::ALL {
+            let exp: Option<Vec<Out>> = match t {
+                T::I | T::L => Some(vec![Out::Overflow]),
+                T::S => {
+                    let direct: f32 = text.parse().unwrap();
+                    if !direct.is_finite() || !as_f64.is_finite() {
+                        Some(vec![Out::Overflow])
+                    } else if (as_f64 as f32) == direct {
+                        Some(vec![Out::Stored(direct as f64)])
+                    } else {
+                        None // double rounding: the statement does not say through which type the text is read
+                    }
+                }
+                T::D => Some(if as_f64.is_finite() { vec![Out::Stored(as_f64)] } else { vec![Out::Overflow] }),
+            };
+            let Some(exp) = exp else { continue };
+            let tv = format!("TV{}", t.sfx());
+            let (r_input, r_read): (&'static str, &'static str) = match class {
+                "beyond-single" => ("input:beyond-single", "read:beyond-single"),
+                "inside-single" => ("input:inside-single", "read:inside-single"),
+                "beyond-double" => ("input:beyond-double", "read:beyond-double"),
+                _ => ("input:inside-double", "read:inside-double"),
+            };
+            *id += 1;
+            let k = *id;
+            out.push(Obs { id: k, route: r_input, s: T::D, t, v: w(0), lines: vec![format!("{} = 7", tv), format!("INPUT {}", tv)], show: Some(format!("PRINT \"K{}\"; {}", k, tv)), stdin: Some(format!("{}\r\n", text)), data: None, exp: exp.clone(), arith: false });
+            if as_f64.is_finite() {
+                // a DATA item is a literal: digits beyond LONG make a DOUBLE (a literal beyond the DOUBLE range is C10's business)
+                *id += 1;
+                let k = *id;
+                out.push(Obs { id: k, route: r_read, s: T::D, t, v: w(0), lines: vec![format!("{} = 7", tv), format!("READ {}", tv)], show: Some(format!("PRINT \"K{}\"; {}", k, tv)), stdin: None, data: Some(text.clone()), exp, arith: false });
+            }
+        }
+    }
+}
+
+/// POKE through VARSEG / VARPTR into the two bytes of an INTEGER variable and of an INTEGER array element:
+/// afterwards the location holds the 16-bit two's complement value of its bytes, i.e. still an INTEGER.
+fn poke(id: &mut usize, out: &mut Vec<Obs>) {
+    for init in [0i16, 1, -1, 255, 256, 32767, -32768, -2] {
+        for off in 0..2usize {
+            for byte in [0u8, 1, 127, 128, 255] {
+                let mut bytes = init.to_le_bytes();
+                bytes[off] = byte;
+                let want = i16::from_le_bytes(bytes);
+                for (route, loc) in [("poke-variable", "TV%".to_string()), ("poke-array-element", "AR%(1)".to_string())] {
+                    *id += 1;
+                    let k = *id;
+                    let lines = vec![format!("{} = {}", loc, init), format!("DEF SEG = VARSEG({})", loc), format!("POKE VARPTR({}) + {}, {}", loc, off, byte), "DEF SEG".to_string()];
+                    out.push(Obs { id: k, route, s: T::I, t: T::I, v: w(0), lines, show: Some(format!("PRINT \"K{}\"; {}", k, loc)), stdin: None, data: None, exp: vec![Out::Stored(want as f64)], arith: false });
+                }
+            }
+        }
+    }
+}
+
 fn matrix() -> Vec<Obs> {
     let mut id = 0usize;
     let mut out = vec![];
@@ -514,6 +673,9 @@ fn matrix() -> Vec<Obs> {
         }
     }
     arithmetic(&mut id, &mut out);
+    logical(&mut id, &mut out);
+    huge_text(&mut id, &mut out);
+    poke(&mut id, &mut out);
     out
 }
 
